@@ -18,7 +18,11 @@ RULE = (
     "cube of every live non-negative index (alone and crossed with another live index of the same length) is "
     "compared with the table counted from the dense NumPy model, so indexes REACHED BY A HISTORY (append, update, "
     "filter, set updates, re-indexing ...) and cubes computed repeatedly over the same index object are covered; "
-    "non-trivial = a history with a mutation in which a cube was computed over an operation's result."
+    "non-trivial = a history with a mutation in which a cube was computed over an operation's result. count also "
+    "re-evaluates cubes with more than two sub-cubes with the worker pool on (real threads, pool sizes 2..16). "
+    "huge_sparse: hand-built indexes over 2^30 / sub-cubes (+-1) rows with at most 6 listed rows per column near both "
+    "ends and the middle, so the library switches its pool on BY ITSELF (default or chosen pool size); oracle counted "
+    "from the entries, the remaining rows belong to the all-common cell."
 )
 ASSUMPTIONS = [
     "explicit cube shapes cover the data and the common value of each dimension",
@@ -36,6 +40,8 @@ def cases(draw, tier):
         spec = draw(Q.cube_specs(max_nd=3, min_nd=0, max_n=40, big_ok=True,
                                  tails=((), (), (2,), (3,), (1,), (2, 2), (3, 2), (2, 1))))
     spec["rma"] = draw(st.sampled_from(["nan", "nan", ["tuple", 0], "plain"]))
+    # cubes with more than two sub-cubes are also evaluated with the worker pool switched on (real threads)
+    spec["poolsize"] = draw(st.sampled_from([None, None, 2, 3, 4, 6, 16]))
     return spec
 
 
@@ -56,6 +62,15 @@ def check(case, rec):
         gv = gv.reshape(exp_v.shape)
         gm = None if gm is None else gm.reshape(exp_m.shape)
     Q.compare("ccube.count[%s]" % case["shape_mode"], gv, gm, exp_v, exp_m)
+    if case.get("poolsize") and getattr(cube, "scaffold_size", 0) > 2:
+        with libcall("ccube.count with the worker pool on (poolsize %d)" % case["poolsize"]):
+            pooled, _ = Q.make_ccube(case, dense)
+            pooled.parallel = True
+            pooled.poolsize = case["poolsize"]
+            res2 = Q.call_agg(pooled, "count", None, None, False, case["rma"], N=None)
+        pv, pm = Q.normalise(res2, case["rma"], "ccube.count (pooled)")
+        Q.compare("ccube.count[%s, pool of %d]" % (case["shape_mode"], case["poolsize"]), pv, pm, exp_v, exp_m)
+        rec.note("also evaluated with the pool on")
     if nd:
         ns = len(Q.scaffold_shape(case))
         sums = gv.sum(axis=tuple(range(ns, gv.ndim)))
@@ -80,6 +95,96 @@ def check(case, rec):
         rec.nontrivial()
 
 
+BIG_REGIONS = 2 ** 30  # rows x sub-cubes from which the index cube switches its worker pool on by itself
+
+
+@st.composite
+def huge_cases(draw, tier):
+    """Hundreds of millions of rows, a handful of entries: cheap for an inverted index, and the only way to reach
+    the configuration the library chooses BY ITSELF for big inputs (worker pool on, default or chosen pool size)."""
+    C = draw(st.sampled_from([3, 3, 4, 5, 8]))
+    D = draw(st.sampled_from([None, None, 2]))
+    scaffold = C * (D or 1)
+    N = -(-BIG_REGIONS // scaffold) + draw(st.sampled_from([-1, 0, 0, 1, 1000]))
+    near = st.one_of(st.integers(0, 40), st.integers(N - 40, N - 1), st.integers(N // 2 - 20, N // 2 + 20))
+
+    def draw_dim(tail):
+        common = draw(st.integers(0, 3))
+        values = [v for v in range(4) if v != common]
+        entries = []
+        import itertools
+
+        for pos in itertools.product(*[range(e) for e in tail]):
+            rows = sorted(set(draw(st.lists(near, max_size=6))))
+            groups = {}
+            for r in rows:
+                groups.setdefault(draw(st.sampled_from(values)), []).append(r)
+            for v, rs in sorted(groups.items()):
+                entries.append([[v] + list(pos), rs])
+        return {"tail": list(tail), "common": common, "entries": entries}
+
+    dims = [draw_dim([C] if D is None else [C, D])]
+    if draw(st.booleans()):
+        dims.append(draw_dim([]))
+    if draw(st.booleans()):
+        dims.reverse()
+    return {"N": N, "dims": dims, "poolsize": draw(st.sampled_from([None, None, 2, 6, 16]))}
+
+
+def check_huge(case, rec):
+    import itertools
+
+    import numpy
+
+    from catii import ccube, iindex
+
+    N = case["N"]
+    idxs = []
+    for d in case["dims"]:
+        ents = {tuple(k): numpy.array(r, dtype=numpy.uint32) for k, r in d["entries"]}
+        idxs.append(iindex(ents, d["common"], (N,) + tuple(d["tail"])))
+    with libcall("ccube(huge sparse indexes).count"):
+        cube = ccube(idxs, (4,) * len(idxs))
+        auto = bool(cube.parallel)
+        if case["poolsize"] is not None:
+            cube.poolsize = case["poolsize"]
+        vals, valid = cube.count(return_missing_as=(0, False))
+    vals, valid = numpy.asarray(vals), numpy.asarray(valid)
+    tails = [tuple(d["tail"]) for d in case["dims"]]
+    scaffold = tuple(e for t in tails for e in t)
+    if vals.shape != scaffold + (4,) * len(idxs):
+        raise Violation("count cube of huge sparse indexes has shape %s, expected %s" % (
+            vals.shape, scaffold + (4,) * len(idxs)), sig="ccube.count (huge sparse) shape")
+    for pos in itertools.product(*[itertools.product(*[range(e) for e in t]) for t in tails]):
+        # rows that are uncommon on some dimension at this position; all other rows sit in the all-common cell
+        per_dim = []
+        for d, pp in zip(case["dims"], pos):
+            m = {}
+            for k, rs in d["entries"]:
+                if tuple(k[1:]) == tuple(pp):
+                    for r in rs:
+                        m[r] = k[0]
+            per_dim.append(m)
+        rows = set().union(*[set(m) for m in per_dim])
+        want = numpy.zeros((4,) * len(idxs), dtype=numpy.int64)
+        for r in rows:
+            want[tuple(m.get(r, d["common"]) for m, d in zip(per_dim, case["dims"]))] += 1
+        want[tuple(d["common"] for d in case["dims"])] += N - len(rows)
+        flat = tuple(x for pp in pos for x in pp)
+        got, gvalid = vals[flat], valid[flat]
+        if not numpy.array_equal(gvalid, want != 0) or not numpy.array_equal(got[want != 0], want[want != 0]):
+            bad = tuple(int(x) for x in numpy.argwhere((gvalid != (want != 0)) | ((want != 0) & (got != want)))[0])
+            raise Violation("count cube over %d rows (pool %s, size %s): block %s cell %s holds %s (valid=%s), %d rows "
+                            "have those categories" % (N, "engaged by the library" if auto else "off",
+                                                       case["poolsize"] or "default", flat, bad, got[bad],
+                                                       bool(gvalid[bad]), int(want[bad])),
+                            sig="ccube.count wrong for huge sparse indexes (pool %s)" % ("on" if auto else "off"))
+    rec.note("pool engaged by the library" if auto else "below the pooling threshold",
+             "poolsize=%s" % (case["poolsize"] or "default"), "subcubes=%d" % int(numpy.prod(scaffold or (1,))))
+    if auto and len(idxs) >= 2:
+        rec.nontrivial()
+
+
 MEX = {"quick": 1600, "thorough": 60000}
 MSTEPS = {"quick": 20, "thorough": 30}
 
@@ -99,4 +204,5 @@ def machine_replay(case, rec):
 SUBS = [
     Sub("histories", machine_replay, runner=machine_runner, examples=MEX, weight=4),
     Sub("count", check, strategy=cases, examples={"quick": 4000, "thorough": 200000}),
+    Sub("huge_sparse", check_huge, strategy=huge_cases, examples={"quick": 400, "thorough": 20000}),
 ]
